@@ -359,4 +359,31 @@ CHECKS = {
             {"name": "onopen", "test": "TestOnOpenLogs", "quick": 300, "thorough": 3000, "shards": 4},
         ],
     },
+    "C05": {
+        "pkg": "c05",
+        "level": "fault_enumeration",
+        "level_text": ("Fault enumeration over the stall point: for 13 blocking operations (get-prompt, send-command(s), interactive, "
+                       "acquire-priv plain/authenticated, network send-command / send-configs with an implicit privilege change, NETCONF "
+                       "open / get / lock, telnet and ssh in-channel login) the length L of the exchange is measured by a dry run and the "
+                       "device is then made silent after byte k; k is drawn (with boundary weight) in the rapid sub-check and enumerated "
+                       "for every k of fixed exchanges x 3 segmentations x 2 timeout settings in the all-k sub-check (thorough: every k; "
+                       "quick: every 19th). Oracle on the virtual clock: the call returns an error of the timeout class (privilege class "
+                       "for the implicit privilege change), never success with fewer than the needed bytes, not before the timeout in "
+                       "force (per-operation over connection-wide precedence) and not later than it plus 4 read delays + 1 ms measured "
+                       "from the instant the device went quiet; per-operation 0 keeps waiting 10x the connection-wide value and then "
+                       "succeeds when the device catches up; recovery clause: after a stall that began once the command's return was "
+                       "sent, the device catches up and the next command returns its own result. SendWithCallbacks and ReadDelay 0 run "
+                       "in a real-time sub-check with one-sided bounds."),
+        "level_note": ("Trusted: device models, dry-run length measurement (deterministic in virtual time), testing/synctest. For multi-step "
+                       "operations only the upper bound (max of the applicable timeouts) is asserted because every step arms its own timer."),
+        "technique": "fault enumeration of stall points driven by rapid and exhaustive k loops; virtual-time bounds; recovery clause; real-time sub-tier for spinning code",
+        "rule": ("stall: op x timeout mode x k (per-mille of the measured exchange) x cut plan x read size; all-k: op x mode x plan x every k. "
+                 "Non-trivial: 0 < k < L, or a per-operation override. Distinct = sha1(case)."),
+        "assumptions": ["timeouts >= 200 ms virtual with ReadDelay 500 us", "recovery clause only when the timed-out command's return had been sent and the next command carries a byte that occurs nowhere else"],
+        "subs": [
+            {"name": "stall", "test": "TestStall", "quick": 300, "thorough": 4000, "shards": 16},
+            {"name": "all-k", "test": "TestAllK", "quick": None, "thorough": None, "shards": 16, "enum": True},
+            {"name": "callbacks-rt", "test": "TestCallbacks", "quick": 60, "thorough": 600, "shards": 8},
+        ],
+    },
 }
